@@ -511,6 +511,7 @@ class Calibration:
             input_arguments=self.result_input_arguments,
             weights=self.weights,
             weights_from_file=self.weights_from_file,
+            pipeline_seed=self.pipeline_seed,
             with_inherited_coords=with_inherited_coords,
         )
 
